@@ -118,6 +118,10 @@ _WORDS = ["", "a", "b", "title", "app", "url", "afk", "not-afk", "firefox", "x y
           "tab\there", "new\nline", "null", "True", "1", " lead", "trail ", "é́", "﻿bom", " "]
 
 
+# a title cut in the middle of an emoji: an unpaired UTF-16 surrogate (legal in a Python str and in JSON escapes)
+_WORDS += ["cut \ud83d", "\udc00x"]
+
+
 def rand_str(rng) -> str:
     r = rng.random()
     if r < 0.6:
